@@ -186,7 +186,7 @@ def showbias(
             )
         bootstrap_ci = get_bootstrap_ci(
             theta=samples,
-            theta_hat=calculate_group_metric(score_object, **metric_kwargs),
+            theta_hat=group_metrics,
             alpha=alpha,
             method=bootstrap_config.bootstrap_method,
         )
